@@ -417,6 +417,9 @@ def components_from_metric(metric, tol=None):
   L : np.ndarray, shape=(d x d)
     The transformation matrix, such that L.T.dot(L) == metric.
   """
+  if not np.issubdtype(metric.dtype, np.floating):
+    # (the default tolerance below is relative to the floating-point type)
+    metric = metric.astype(float)
   if not np.allclose(metric, metric.T):
     raise ValueError("The input metric should be symmetric.")
   # If M is diagonal, we will just return the elementwise square root:
